@@ -71,3 +71,70 @@ pub fn guard<F: FnOnce() + Send + 'static>(stall: Duration, trace_path: Option<S
         }
     }
 }
+
+// ---- the schedule-driven profiles (conc, pol): commands also run outside the scheduler
+// (the prelude of a case, the one-at-a-time orders of the monitors). Every such command,
+// every case start and every granted step is a beat; when none comes for `stall` the
+// command in progress never came back: what was collected, the case in progress and a
+// HANG / STUCK observation are written and the process exits.
+pub struct Snap {
+    pub trace: String,
+    pub obs: String,
+    pub monitor: String,
+    pub case_id: String,
+    pub case_trace: String,
+}
+
+pub static SNAP: Mutex<Snap> = Mutex::new(Snap { trace: String::new(), obs: String::new(), monitor: String::new(), case_id: String::new(), case_trace: String::new() });
+static BEAT2: AtomicU64 = AtomicU64::new(0);
+
+pub fn beat() {
+    BEAT2.fetch_add(1, Ordering::SeqCst);
+}
+
+/// a case starts: everything collected so far, and the trace lines that identify the case
+pub fn case_start(trace: &str, obs: &str, monitor: &str, id: &str, case_trace: &str) {
+    let mut s = SNAP.lock().unwrap();
+    s.trace.clear();
+    s.trace.push_str(trace);
+    s.obs.clear();
+    s.obs.push_str(obs);
+    s.monitor.clear();
+    s.monitor.push_str(monitor);
+    s.case_id.clear();
+    s.case_id.push_str(id);
+    s.case_trace.clear();
+    s.case_trace.push_str(case_trace);
+    beat();
+}
+
+pub fn deadman<F: FnOnce() + Send + 'static>(stall: Duration, trace_path: String, obs_path: String, monitor_path: Option<String>, body: F) {
+    let h = std::thread::spawn(body);
+    let mut last = BEAT2.load(Ordering::SeqCst);
+    let mut since = Instant::now();
+    loop {
+        if h.is_finished() {
+            if h.join().is_err() {
+                std::process::exit(101);
+            }
+            return;
+        }
+        std::thread::sleep(Duration::from_millis(50));
+        let b = BEAT2.load(Ordering::SeqCst);
+        if b != last {
+            last = b;
+            since = Instant::now();
+            continue;
+        }
+        if since.elapsed() > stall {
+            let s = SNAP.lock().unwrap();
+            let _ = std::fs::write(&trace_path, format!("{}{}", s.trace, s.case_trace));
+            let _ = std::fs::write(&obs_path, format!("{}CASE {}\nHANG command_did_not_return_within_{}s\n", s.obs, s.case_id, stall.as_secs()));
+            if let Some(mp) = &monitor_path {
+                let _ = std::fs::write(mp, format!("{}STUCK {} command_did_not_return_within_{}s\n", s.monitor, s.case_id, stall.as_secs()));
+            }
+            eprintln!("harness: a command of case {} did not return within {} s; outputs written, giving up", s.case_id, stall.as_secs());
+            std::process::exit(0);
+        }
+    }
+}
